@@ -139,7 +139,8 @@ class Ctx:
         name = hashlib.sha1(key.encode()).hexdigest()[:10] + '.json'
         path = os.path.join(rdir, name)
         with open(path, 'w') as f:
-            json.dump(dict(property=self.pid, key=key, what=what, module=module, fn=fn, case=_jsonable(case)),
+            json.dump(dict(property=self.pid, key=key, what=what, module=module, fn=fn, case=_jsonable(case),
+                           variant=os.environ.get('VERIF_ENV_VARIANT', '')),
                       f, indent=1, sort_keys=True, default=str)
         self.violations[key] = dict(what=what, replay=path, count=1)
 
@@ -155,7 +156,8 @@ class Ctx:
             print('  key=%s count=%d: %s' % (key, v['count'], v['what']))
         ev = dict(property_id=self.pid, tier=self.tier, seed=self.seed, level=self.level,
                   coverage=self.cov, assumptions=self.assumptions,
-                  wall_s=round(time.time() - self.t0, 2), violations=len(self.violations))
+                  wall_s=round(time.time() - self.t0, 2),
+                  violations=len(self.violations) + (1 if getattr(self, 'variant_failed', False) else 0))
         if not self.cov['samples']:
             self.cov['samples'].append('none recorded')
         if self.write_evidence:
@@ -165,8 +167,9 @@ class Ctx:
         print('%s tier=%s seed=%d: states=%d transitions=%d traces=%d evaluations=%d distinct=%d wall=%.1fs -> %s' % (
             self.pid, self.tier, self.seed, self.cov['states'], self.cov['transitions'],
             self.cov['traces_validated_against_impl'], self.cov['evaluations'], self.cov['distinct_nontrivial'],
-            time.time() - self.t0, 'VIOLATION' if self.violations else 'held'))
-        return 1 if self.violations else 0
+            time.time() - self.t0, 'VIOLATION' if self.violations else
+            'VIOLATION (in the environment variant)' if getattr(self, 'variant_failed', False) else 'held'))
+        return 1 if self.violations or getattr(self, 'variant_failed', False) else 0
 
 
 def _jsonable(o):
@@ -191,4 +194,18 @@ def use_repo():
     import warnings
     warnings.filterwarnings('ignore')
     import logging
-    logging.disable(logging.CRITICAL)
+    if os.environ.get('VERIF_ENV_VARIANT'):
+        # environment variant (see main._start_variant): every valjean logger is enabled down to DEBUG, the records are
+        # discarded by the handlers
+        logging.disable(logging.NOTSET)
+        try:
+            import valjean   # noqa: F401  (installs its handler)
+        except Exception:  # pylint: disable=broad-except
+            pass
+        lg = logging.getLogger('valjean')
+        lg.setLevel(logging.DEBUG)
+        for h in lg.handlers + logging.getLogger().handlers:
+            h.setLevel(logging.CRITICAL + 10)
+        lg.propagate = False
+    else:
+        logging.disable(logging.CRITICAL)
